@@ -60,7 +60,9 @@ def render(file_lines, style):
             c = concrete_event(l['e'], style)
             rows.append('%r,%r,%r,%s,%r,%d,%s' % (c['lon'], c['lat'], c['mag'], c['tstr'], c['depth'], l['cid'], c['id']))
     # (the last row need not be followed by a line break)
-    return '\n'.join(rows) + ('' if (len(rows) + len(style)) % 3 == 1 and rows else '\n')
+    # (... and lines may end in CR LF, as in files written on Windows)
+    nl = '\r\n' if (len(rows) + len(style)) % 4 == 2 else '\n'
+    return nl.join(rows) + ('' if (len(rows) + len(style)) % 3 == 1 and rows else nl)
 
 
 def observe_catalog(cat):
